@@ -74,6 +74,17 @@ CHECKS = {
             "killed there and the parent requires load() to return the previous or the new configuration.",
             "Trusted: os.rename atomicity and the filesystem; process death only (no power loss). Saves to enumerate are sampled, their crash points are complete.",
             "DESIGN.md 4/C19"),
+    "C13": ("fault_enumeration",
+            "runtime monitor: reference dict model run in lock-step with the real SQLite store + reopen comparison; crash injection (os._exit in forked children at every SQL statement/commit/Python-line boundary of an operation) judged per record after reopen",
+            "Operation sequences (3-30 ops over sessions, pinned identities, one-time prekeys incl. sent flag, signed prekeys, "
+            "sender keys; records are real python-axolotl blobs) are compared with a dict model live and after close+reopen; for "
+            "each of 12 operation kinds on generated states (3/4 replacing an existing record) every boundary of the operation - "
+            "before/after each DML statement, before/after each commit, every Python line in store/sqlite/*.py - is a crash point: "
+            "a forked child is killed there, the parent reopens the file and requires every record to be its old or its new "
+            "value, never missing; plus two-party conversations continued across restarts of either side. Crash points are "
+            "complete per operation instance; states and sequences are sampled.",
+            "Trusted: SQLite's atomic commit, the filesystem, python-axolotl (with the block-aligned padding shim). Process death only.",
+            "DESIGN.md 4/C13"),
 }
 
 NOT_BUILT = "check not built yet in this session (planned, see DESIGN.md section 4)"
